@@ -451,17 +451,20 @@ impl Plane {
     if self.content.is_empty() {
       return Err(plane_is_empty());
     }
+    // check if the hit policy is placed in the bottom-left corner of the plane; this corner is checked first,
+    // because in a vertical decision table the top-left corner holds the first input expression,
+    // which may be a name spelled like a hit policy (A, U, P, F, R, O, C), while in a horizontal
+    // decision table the bottom-left corner holds the number of the last rule
+    if let Cell::Region(_, _, text) = &self.content.last().unwrap().first().unwrap() {
+      if let Ok(hit_policy) = HitPolicy::try_from(text.as_str()) {
+        return Ok(HitPolicyPlacement::BottomLeft(hit_policy));
+      }
+    }
     // check if the hit policy is placed in the top-left corner of the plane
     if let Cell::Region(_, _, text) = &self.content.first().unwrap().first().unwrap() {
       if let Ok(hit_policy) = HitPolicy::try_from(text.as_str()) {
         // top-left corner
         return Ok(HitPolicyPlacement::TopLeft(hit_policy));
-      }
-    }
-    // check if the hit policy is placed in the bottom-left corner of the plane
-    if let Cell::Region(_, _, text) = &self.content.last().unwrap().first().unwrap() {
-      if let Ok(hit_policy) = HitPolicy::try_from(text.as_str()) {
-        return Ok(HitPolicyPlacement::BottomLeft(hit_policy));
       }
     }
     // hit policy was not found in the top-left nor bottom-right corner if the plane
